@@ -888,5 +888,200 @@ theorem count_loop (g env : Nat) : ∀ (N : Nat) (A : Int) (σ : Store), CountEn
       simp only [Store.bump_maxDepth, Store.bump_depth, Store.pushFrame_depth, Store.pushFrame_maxDepth]
       omega
 
+/-! ### shared pieces for the other loop shapes -/
+
+theorem lookup_param {σ : Store} {g : Nat} {D : List (String × Value)} {k : String} {v : Value} (j : Nat)
+    (h : D.lookup k = some v) : ((σ.pushFrame g D).bump j).lookup σ.frames.size k = some v := by
+  rw [Store.lookup_bump]; exact Store.lookup_pushFrame_here h
+
+theorem lookup_global {σ : Store} {g : Nat} {D : List (String × Value)} {k : String} {v : Value} (j : Nat)
+    (hs : Sees σ g k v) (h : D.lookup k = none) : ((σ.pushFrame g D).bump j).lookup σ.frames.size k = some v := by
+  rw [Store.lookup_bump]; exact hs.from_child h
+
+/-- `(op a c)` with `op` bound to a native procedure that does not touch the store and operands that
+do not touch it either -/
+theorem Evals.bin_builtin {τ ρ op a c b va vc v} (hop : τ.lookup ρ op = some (.builtin b)) (hb : b ≠ .apply)
+    (ha : Evals τ ρ a (.ok va) τ) (hc : Evals τ ρ c (.ok vc) τ)
+    (hok : arityOk b.arity.1 b.arity.2 2 = true) (hpure : ∀ τ', applyPure τ' b [va, vc] = (.ok v, τ')) :
+    Evals τ ρ (.call (.sym op none) [a, c] none) (.ok v) (τ.bump 1) :=
+  Evals.call_builtin hop hb (EvalsArgs.cons ha (EvalsArgs.cons hc EvalsArgs.nil)) hok hpure
+
+theorem Evals.int_lit {τ ρ} (i : Int) : Evals τ ρ (.prim (.int i) none) (.ok (.num (.int i))) τ := Evals.prim rfl
+
+/-- `(= x 0)` -/
+theorem Evals.eq_zero {τ ρ x} {N : Int} (hop : τ.lookup ρ "=" = some (.builtin .numEq))
+    (hx : τ.lookup ρ x = some (.num (.int N))) :
+    Evals τ ρ (.call (.sym "=" none) [.sym x none, .prim (.int 0) none] none) (.ok (.bool (N == 0))) (τ.bump 1) :=
+  Evals.bin_builtin hop (by decide) (Evals.sym hx) (Evals.int_lit 0) rfl (fun τ' => applyPure_numEq τ' N 0)
+
+/-- `(- x 1)` -/
+theorem Evals.sub_one {τ ρ x} {N : Int} (hop : τ.lookup ρ "-" = some (.builtin .sub))
+    (hx : τ.lookup ρ x = some (.num (.int N))) (hfit : fitsI32 (N - 1) = true) :
+    Evals τ ρ (.call (.sym "-" none) [.sym x none, .prim (.int 1) none] none) (.ok (.num (.int (N - 1)))) (τ.bump 1) :=
+  Evals.bin_builtin hop (by decide) (Evals.sym hx) (Evals.int_lit 1) rfl (fun τ' => applyPure_sub τ' hfit)
+
+/-- `(+ x 1)` -/
+theorem Evals.add_one {τ ρ x} {A : Int} (hop : τ.lookup ρ "+" = some (.builtin .add))
+    (hx : τ.lookup ρ x = some (.num (.int A))) (hA : fitsI32 A = true) (hfit : fitsI32 (A + 1) = true) :
+    Evals τ ρ (.call (.sym "+" none) [.sym x none, .prim (.int 1) none] none) (.ok (.num (.int (A + 1)))) (τ.bump 1) :=
+  Evals.bin_builtin hop (by decide) (Evals.sym hx) (Evals.int_lit 1) rfl (fun τ' => applyPure_add τ' hA hfit)
+
+theorem fits_of_bounds {x : Int} (h₁ : -2147483648 ≤ x) (h₂ : x ≤ 2147483647) : fitsI32 x = true := by
+  simp [fitsI32]; omega
+
+/-! ### the counting loop with its recursive call wrapped in a tail context -/
+
+/-- `(lambda (n acc) (if (= n 0) acc E))` for an arbitrary tail expression `E` -/
+def ctxLam (E : Expr) : Lambda := .mk ⟨["n", "acc"], none⟩ []
+  [.cond (.call (.sym "=" none) [.sym "n" none, .prim (.int 0) none] none) (.sym "acc" none) (some E) none]
+
+/-- the recursive call `(loop (- n 1) (+ acc 1))` -/
+def recCall : Expr :=
+  .call (.sym "loop" none) [.call (.sym "-" none) [.sym "n" none, .prim (.int 1) none] none,
+    .call (.sym "+" none) [.sym "acc" none, .prim (.int 1) none] none] none
+
+/-- frame `ρ` of `τ` sees the loop variables `n`, `acc` with the given values, the native `-`, `+`,
+and `loop` bound to the closure of `L` over frame `g`, which itself sees `=`, `-`, `+`, `loop` -/
+structure IterEnv (L : Lambda) (τ : Store) (ρ g : Nat) (N A : Int) : Prop where
+  lt : ρ < τ.frames.size
+  n : τ.lookup ρ "n" = some (.num (.int N))
+  acc : τ.lookup ρ "acc" = some (.num (.int A))
+  sub : τ.lookup ρ "-" = some (.builtin .sub)
+  add : τ.lookup ρ "+" = some (.builtin .add)
+  loop : τ.lookup ρ "loop" = some (.closure L g)
+  geq : Sees τ g "=" (.builtin .numEq)
+  gsub : Sees τ g "-" (.builtin .sub)
+  gadd : Sees τ g "+" (.builtin .add)
+  gloop : Sees τ g "loop" (.closure L g)
+
+/-- what a tail context must do: from any frame that sees the loop's variables it leads
+(`TailPath`) to the recursive call, in a frame that still sees them, raising `maxDepth` at most to
+`depth + 1` -/
+def GoodContext (env : Nat) (L : Lambda) (g : Nat) (E : Expr) : Prop :=
+  ∀ τ ρ N A, IterEnv L τ ρ g N A → ∃ τs ρs, TailPath env τ ρ E τs ρs recCall ∧ IterEnv L τs ρs g N A ∧
+    τs.maxDepth ≤ max τ.maxDepth (τ.depth + 1)
+
+theorem ctx_paramDefs (E : Expr) (x y : Value) : paramDefs (ctxLam E).formals [x, y] = [("n", x), ("acc", y)] := by
+  simp [paramDefs, ctxLam, Lambda.formals, bindList, Store.defsInsert]
+
+theorem ctx_loop (g env : Nat) (E : Expr) (hE : GoodContext env (ctxLam E) g E) :
+    ∀ (N : Nat) (A : Int) (σ : Store),
+    Sees σ g "=" (.builtin .numEq) → Sees σ g "-" (.builtin .sub) → Sees σ g "+" (.builtin .add) →
+    Sees σ g "loop" (.closure (ctxLam E) g) →
+    (N : Int) ≤ 2147483647 → -2147483648 ≤ A → A + N ≤ 2147483647 →
+    ∃ σ', Applies σ (.closure (ctxLam E) g) [.num (.int N), .num (.int A)] env (.ok (.num (.int (A + N)))) σ' ∧
+      σ'.maxDepth ≤ max σ.maxDepth (σ.depth + 1) := by
+  intro N
+  induction N with
+  | zero =>
+    intro A σ heq hsub hadd hloop _ hA hAN
+    let D : List (String × Value) := [("n", .num (.int (0 : Nat))), ("acc", .num (.int A))]
+    have htest := Evals.eq_zero (τ := σ.pushFrame g D) (ρ := σ.frames.size) (x := "n") (N := ((0 : Nat) : Int))
+      (heq.from_child rfl) (Store.lookup_pushFrame_here rfl)
+    refine ⟨(σ.pushFrame g D).bump 1, ?_, Nat.le_of_eq rfl⟩
+    have : A + ((0 : Nat) : Int) = A := by simp
+    rw [this]
+    refine Applies.closure_value rfl (AppliesScheme.no_defs rfl (by simp [ctxLam, Lambda.formals]) ?_)
+    rw [ctx_paramDefs]
+    exact EvalsBody.last (EvalsTail.cond_true htest rfl
+      (EvalsTail.other (by intros; exact Expr.noConfusion) (by intros; exact Expr.noConfusion)
+        (Evals.sym (lookup_param 1 rfl))))
+  | succ N ih =>
+    intro A σ heq hsub hadd hloop hN hA hAN
+    let D : List (String × Value) := [("n", .num (.int ((N + 1 : Nat) : Int))), ("acc", .num (.int A))]
+    have htest := Evals.eq_zero (τ := σ.pushFrame g D) (ρ := σ.frames.size) (x := "n") (N := ((N + 1 : Nat) : Int))
+      (heq.from_child rfl) (Store.lookup_pushFrame_here rfl)
+    have hne : (((N + 1 : Nat) : Int) == 0) = false := by
+      simp only [beq_eq_false_iff_ne, ne_eq]; omega
+    rw [hne] at htest
+    -- the frame of this iteration, after the test
+    have hit : IterEnv (ctxLam E) ((σ.pushFrame g D).bump 1) σ.frames.size g ((N + 1 : Nat) : Int) A :=
+      ⟨by simp [Store.pushFrame_frames], lookup_param 1 rfl, lookup_param 1 rfl, lookup_global 1 hsub rfl,
+       lookup_global 1 hadd rfl, lookup_global 1 hloop rfl, (heq.pushFrame g D).bump 1, (hsub.pushFrame g D).bump 1,
+       (hadd.pushFrame g D).bump 1, (hloop.pushFrame g D).bump 1⟩
+    obtain ⟨τs, ρs, hpath, hs, hms⟩ := hE _ _ _ _ hit
+    have hsubE := Evals.sub_one hs.sub hs.n (fits_of_bounds (by omega) (by omega))
+    have haddE := Evals.add_one (τ := τs.bump 1) (ρ := ρs) (x := "acc") (by rw [Store.lookup_bump]; exact hs.add)
+      (by rw [Store.lookup_bump]; exact hs.acc) (fits_of_bounds (by omega) (by omega)) (fits_of_bounds (by omega) (by omega))
+    simp only [Store.bump_bump, Nat.max_self] at haddE
+    have he : ((N + 1 : Nat) : Int) - 1 = (N : Int) := by omega
+    rw [he] at hsubE
+    obtain ⟨σ', hl, hm⟩ := ih (A + 1) (τs.bump 1) (hs.geq.bump 1) (hs.gsub.bump 1) (hs.gadd.bump 1) (hs.gloop.bump 1)
+      (by omega) (by omega) (by omega)
+    have hd := hpath.spec.2.1.1
+    refine ⟨σ', ?_, ?_⟩
+    · have he' : A + ((N + 1 : Nat) : Int) = A + 1 + (N : Int) := by omega
+      rw [he']
+      have hruns : TailRuns env ((σ.pushFrame g D).bump 1) σ.frames.size E (.ok (.num (.int (A + 1 + N)))) σ' :=
+        hpath.spec.2.2 _ _ (TailRuns.call (.inr ⟨_, _, Evals.sym hs.loop, .inr ⟨_, _,
+          EvalsArgs.cons hsubE (EvalsArgs.cons haddE EvalsArgs.nil), .inr ⟨rfl, hl⟩⟩⟩))
+      -- the body: the test is false, the alternative `E` is the tail expression
+      rcases hruns with ⟨er, _, h⟩ | ⟨v, ht, h⟩ | ⟨f, targs, tenv, σ₁, ht, hp⟩
+      · cases h
+      · cases h
+        refine Applies.closure_value rfl (AppliesScheme.no_defs rfl (by simp [ctxLam, Lambda.formals]) ?_)
+        rw [ctx_paramDefs]
+        exact EvalsBody.last (EvalsTail.cond_false htest rfl ht)
+      · refine hp.applies rfl (AppliesScheme.no_defs rfl (by simp [ctxLam, Lambda.formals]) ?_)
+        rw [ctx_paramDefs]
+        exact EvalsBody.last (EvalsTail.cond_false htest rfl ht)
+    · refine Nat.le_trans hm ?_
+      simp only [Store.bump_maxDepth, Store.bump_depth]
+      have h1 : τs.depth = σ.depth := hd
+      simp only [Store.bump_maxDepth, Store.bump_depth, Store.pushFrame_depth, Store.pushFrame_maxDepth] at hms
+      omega
+
+/-- the empty context -/
+theorem goodContext_here (env : Nat) (L : Lambda) (g : Nat) : GoodContext env L g recCall :=
+  fun τ ρ _ _ h => ⟨τ, ρ, .here, h, Nat.le_max_left _ _⟩
+
+/-- the context `((lambda () □))` — what `(begin □)` and `(let () □)` expand to — around a good context -/
+theorem goodContext_thunk (env : Nat) (L : Lambda) (g : Nat) {E : Expr} (hE : GoodContext env L g E) :
+    GoodContext env L g (.call (.lambda (.mk ⟨[], none⟩ [] ([] ++ [E])) none) [] none) := by
+  intro τ ρ N A h
+  have hl : ∀ {k v}, τ.lookup ρ k = some v → (τ.pushFrame ρ []).lookup τ.frames.size k = some v := by
+    intro k v hk; rw [Store.lookup_pushFrame_parent rfl h.lt]; exact hk
+  have hi : IterEnv L (τ.pushFrame ρ []) τ.frames.size g N A :=
+    ⟨by simp [Store.pushFrame_frames], hl h.n, hl h.acc, hl h.sub, hl h.add, hl h.loop,
+      h.geq.pushFrame ρ [], h.gsub.pushFrame ρ [], h.gadd.pushFrame ρ [], h.gloop.pushFrame ρ []⟩
+  obtain ⟨τs, ρs, hp, hs, hm⟩ := hE _ _ N A hi
+  exact ⟨τs, ρs, .lam_call EvalsArgs.nil rfl rfl .nil .nil hp, hs, hm⟩
+
+/-- the context `((lambda (x) □) v)` — what `(let ((x v)) □)` expands to — for a variable `x` that is
+none of the loop's names, around a good context -/
+theorem goodContext_let (env : Nat) (L : Lambda) (g : Nat) {E : Expr} (x : String) (v : Int)
+    (hx : x ≠ "n" ∧ x ≠ "acc" ∧ x ≠ "-" ∧ x ≠ "+" ∧ x ≠ "loop") (hE : GoodContext env L g E) :
+    GoodContext env L g (.call (.lambda (.mk ⟨[x], none⟩ [] ([] ++ [E])) none) [.prim (.int v) none] none) := by
+  intro τ ρ N A h
+  have hD : ∀ k, x ≠ k → List.lookup k [(x, Value.num (.int v))] = none := by
+    intro k hk
+    simp only [List.lookup]
+    have : (k == x) = false := by simp only [beq_eq_false_iff_ne, ne_eq]; exact fun h => hk h.symm
+    rw [this]
+  have hl : ∀ {k w}, x ≠ k → τ.lookup ρ k = some w →
+      (τ.pushFrame ρ [(x, .num (.int v))]).lookup τ.frames.size k = some w := by
+    intro k w hk hw; rw [Store.lookup_pushFrame_parent (hD k hk) h.lt]; exact hw
+  have hi : IterEnv L (τ.pushFrame ρ [(x, .num (.int v))]) τ.frames.size g N A :=
+    ⟨by simp [Store.pushFrame_frames], hl hx.1 h.n, hl hx.2.1 h.acc, hl hx.2.2.1 h.sub, hl hx.2.2.2.1 h.add,
+      hl hx.2.2.2.2 h.loop, h.geq.pushFrame ρ _, h.gsub.pushFrame ρ _, h.gadd.pushFrame ρ _, h.gloop.pushFrame ρ _⟩
+  obtain ⟨τs, ρs, hp, hs, hm⟩ := hE _ _ N A hi
+  refine ⟨τs, ρs, .lam_call (vs := [.num (.int v)]) (restArgs := []) (σ₂ := τ.pushFrame ρ [(x, .num (.int v))])
+    (EvalsArgs.cons (Evals.int_lit v) EvalsArgs.nil) rfl ?_ .nil .nil hp, hs, hm⟩
+  rw [Store.newFrame_eq]
+  exact bindFixed_pushFrame τ ρ [x] [.num (.int v)] [] (by simp)
+
+/-- contexts compose through the arms of an `if` whose test is a constant -/
+theorem goodContext_if_true (env : Nat) (L : Lambda) (g : Nat) {E : Expr} (alt : Option Expr) (h : GoodContext env L g E) :
+    GoodContext env L g (.cond (.prim (.bool true) none) E alt none) := by
+  intro τ ρ N A hi
+  obtain ⟨τs, ρs, hp, hs, hm⟩ := h τ ρ N A hi
+  exact ⟨τs, ρs, .cond_then (Evals.prim rfl) rfl hp, hs, hm⟩
+
+theorem goodContext_if_false (env : Nat) (L : Lambda) (g : Nat) {E : Expr} (c : Expr) (h : GoodContext env L g E) :
+    GoodContext env L g (.cond (.prim (.bool false) none) c (some E) none) := by
+  intro τ ρ N A hi
+  obtain ⟨τs, ρs, hp, hs, hm⟩ := h τ ρ N A hi
+  exact ⟨τs, ρs, .cond_else (Evals.prim rfl) rfl hp, hs, hm⟩
+
 end Eval
 end Ruschm
